@@ -203,3 +203,43 @@ def provided_size_is_the_size(ctx):
         st = [n for n in own_nodes(init.node) if isinstance(n, ast.Assign) and any(dotted(t) == f'self.{attr}' for t in n.targets)]
         ctx.ob(init, f'self.{attr} = {param}', len(st) == 1 and norm(st[0].value) == param, 'meta must carry the call it describes')
         ctx.ob(m.methods[param], f'{param} -> self.{attr}', _single_return_text(m.methods[param]) == f'self.{attr}', f'{param} accessor')
+
+
+@rule('C08.g', ['C08', 'C09'], floor=2)
+def subscriber_hooks_are_looked_up_on_the_instance(ctx):
+    """get_callbacks collects, for every subscriber of the transfer in order, the bound
+    on_<type> attribute of the *subscriber object* (getattr on the instance, so inherited
+    and instance-level hooks count), bound to this transfer's future; the only thing that
+    may exclude a subscriber is that it has no such attribute (hasattr on the instance)."""
+    f = ctx.func('utils.get_callbacks')
+    loops = [n for n in own_nodes(f.node) if isinstance(n, ast.For) and norm(n.iter).endswith('.subscribers')]
+    ctx.need(len(loops) == 1 and isinstance(loops[0].target, ast.Name), 'get_callbacks no longer loops over the subscribers')
+    lp = loops[0]
+    sub = lp.target.id
+    apps = [c for c in ast.walk(lp) if isinstance(c, ast.Call) and isinstance(c.func, ast.Attribute) and c.func.attr == 'append']
+    ctx.ob(f, 'one callback appended per subscriber', len(apps) == 1 and not [n for n in ast.walk(lp) if isinstance(n, (ast.Break, ast.Return))],
+           'every subscriber must be considered, in order')
+
+    def _is_hasattr(t, name_txt):
+        t = q.resolve_local(f, t) if isinstance(t, ast.Name) else t
+        return isinstance(t, ast.Call) and norm(t.func) == 'hasattr' and len(t.args) == 2 and norm(t.args[0]) == sub and norm(q.inline_locals(f, t.args[1])) == name_txt
+    for c in apps:
+        full = q.inline_locals(f, c)
+        ga = [x for x in ast.walk(full) if isinstance(x, ast.Call) and norm(x.func) == 'getattr' and len(x.args) >= 2 and norm(x.args[0]) == sub]
+        name_txt = norm(ga[0].args[1]) if ga else None
+        okn = bool(ga) and name_txt in ("'on_' + callback_type", "f'on_{callback_type}'")
+        okf = any(k.arg == 'future' and norm(k.value) == f.params[0] for x in ast.walk(full) if isinstance(x, ast.Call) for k in x.keywords)
+        ctx.ob(f, "getattr(subscriber, 'on_' + callback_type) bound to future=transfer_future", okn and okf, f'found {short(c, 90)}')
+        bad = []
+        for e, pol in q.guards(c):
+            if not any(e is x for x in ast.walk(lp)):
+                continue
+            if not (pol and _is_hasattr(e, name_txt)):
+                bad.append(('' if pol else 'not ') + norm(e))
+        # an early `continue` is the same decision written the other way round: it may be taken only when the attribute is missing
+        for cn in [n for n in ast.walk(lp) if isinstance(n, ast.Continue)]:
+            gs = [(e, pol) for e, pol in q.guards(cn) if any(e is x for x in ast.walk(lp))]
+            if not (len(gs) == 1 and not gs[0][1] and _is_hasattr(gs[0][0], name_txt)):
+                bad.append('continue when ' + ' and '.join(('' if pol else 'not ') + norm(e) for e, pol in gs))
+        ctx.ob(f, 'a subscriber is left out only when it has no such attribute (hasattr on the instance)', not bad,
+               f'{bad}: hooks that are inherited from a base class, or set on the instance, are silently dropped: on_queued / on_done never run for that subscriber')
